@@ -20,6 +20,41 @@ CHECKS = {
         technique="property-based testing (Hypothesis) with exhaustive enumeration of single faults (class x attribute occurrence x instance position) per generated conforming population; oracle: severity/exit status threshold + confinement against the generator's model",
         text="Every applicable single fault of the statement's classes is applied in turn at every instance/part/attribute position of generated conforming populations; the real reader must end with severity <= INCOMPLETE and p21read must exit non-zero, and every other instance (not referring to the faulted one) must still serialise to its model value.",
         note="Faults are generated only where the result is certainly outside ISO 10303-21 or the schema (table WRONG in lib/checks/c03.py). For unterminated records confinement is asserted only for earlier instances. Open finding F46 (recovery not string aware) is excluded by construction (strings without delimiters in the main campaign, probes with them). Layout noise is white space only."),
+    "C04": dict(
+        level="fault_enumeration", ref="DESIGN.md section 4 C04",
+        technique="property-based testing (Hypothesis-seeded grammar-directed EXPRESS generators lib/explang.py + lib/expgen.py) with single-fault mutation templates of the statement's fault classes (lib/mutate_exp.py) spliced at drawn declaration positions; differential oracle over check-express, exppp (two modes), exp2cxx, exp2python + verdict/exit-status/diagnostic rules from the statement",
+        text="Valid schemas (valid by construction) must be accepted by all four tools with exit 0 and no ERROR diagnostic; every single-fault mutant of the listed classes (undefined type/supertype/subtype/schema/function/attribute, duplicate declaration, subtype and select cycles, subtype not listed, inherited attribute redeclared, bad INVERSE) and certainly-ungrammatical edits must be rejected by all of them with >= 1 ERROR diagnostic, non-zero status, no success banner; for every normally ended run status != 0 exactly when an ERROR was printed. Severities are hard-coded in the check, not read from the tree.",
+        note="Non-termination is judged on CPU time, a wall-clock hit alone is inconclusive. Signals on fault classes the statement does not list are counted only (C06 owns them). The unitary schemas are used for the differential part and the status rule only."),
+    "C05": dict(
+        level="exploration", ref="DESIGN.md section 4 C05",
+        technique="fuzzing, three engines on clang ASan+UBSan builds: (1) Hypothesis-driven grammar-aware mutation campaign (lib/mutate_p21.py, 24 mutators incl. stretching to 10^5 characters, nesting to 10^4, truncation at every offset) over generated conforming populations and schema libraries through the read-then-write driver; (2) coverage-guided libFuzzer target harness/fuzz_p21.cc with a token-level custom mutator and the oracle inside the target; (3) exhaustive enumeration of all strings up to length L over the 25-character Part 21 punctuation alphabet per attribute kind (harness/attr_enum.cc); plus a CPU scaling probe n..8n",
+        text="Every mutant is read and then written by the sanitized driver: any sanitizer report, signal, abort, uncaught exception, exit status other than ordinary, severity outside the enumeration, CPU time above 20 s + 2 us/byte (confirmed in three further runs) or super-linear growth on all doublings in two series is a violation. Failures are bucketed by root cause (sanitizer kind @ innermost stepcode frame), minimised token-wise, and saved under corpus/c05, which is replayed first on every run.",
+        note="Not asserted: which severity a malformed file gets, validity of the written file, leaks (the library leaks on every read; ASan leak detection off). Open finding F70 (instance ids >= 2^31-1 overflow InstMgr::NextFileId) is excluded by construction (counted) and its corpus input is replayed every run. F39 (-fsanitize=function on generated creators) is probed once and only then masked."),
+    "C06": dict(
+        level="exploration", ref="DESIGN.md section 4 C06",
+        technique="fuzzing by generation + token-/byte-level mutation (lib/mutate_exp.py; Hypothesis-seeded) through subprocesses of the clang ASan+UBSan builds of check-express, exppp, exp2cxx, exp2python; pathological lexical shapes from the statement (10^2..10^5 character remarks/literals, 1..200-deep nesting, NULs, bytes >= 0x80, no final newline); the 17 shipped schemas unchanged; CPU-time ceiling and n..8n scaling probe",
+        text="Each case = (bytes, tool, options) run once as a subprocess of the sanitized binary: no sanitizer report, no signal, exit 0, or exit 1..2 with at least one diagnostic line; CPU time below 20 s + 40 us/byte; captured output below 48 MB. Coverage guidance is not used: the tools call exit() deep inside the library and keep parser state in globals, so an in-process target would leak state between inputs (said in the evidence).",
+        note="Open findings F71-F74 (fixed-size formatting/name buffers that need > 8 kB identifiers or > 6000-character item lists; assert on an entity name longer than a file name) are excluded by construction with one probe per worker. Buckets = sanitizer kind + innermost repository frame (gdb fallback when the tool's own handler turns the fault into abort())."),
+    "C12": dict(
+        level="exploration", ref="DESIGN.md section 4 C12",
+        technique="property-based testing (Hypothesis): generated EXPRESS files (non-literal aggregate bounds: CONSTANTs, expressions, function calls, attributes) and the shipped schemas x drawn run configurations {ASLR on/off (setarch -R), cwd depth, absolute/relative/dot-dot/symlink input path, environment size, LC_ALL, TZ, dirty output directory, earlier run of another schema}; metamorphic oracle: byte-identical output trees and equal exit status over 4 runs per tool",
+        text="exp2cxx, exp2python, exppp and schema_scanner are each run 4 times on the same bytes (baseline, plain repeat with a fresh randomised address space, two drawn configurations); the recursive byte content of the output tree and the exit status must be equal in all runs. The two places where the scanner writes the path it was given by design are normalised; everything else is compared byte for byte.",
+        note="stdout/stderr diagnostics are not compared. The scan for >= 7-digit integers that do not occur in the schema text is supporting evidence only. The thorough tier runs all 17 shipped schemas x 4 tools."),
+    "C17": dict(
+        level="exploration", ref="DESIGN.md section 4 C17",
+        technique="property-based testing (Hypothesis): generated single- and multi-schema EXPRESS files with every defined-type shape, case noise and near-colliding names (lib/c17gen.py); differential two-sided set comparison between the CMakeLists.txt the scanner emits and the files exp2cxx creates, run exactly as the build runs them",
+        text="In an empty directory schema_scanner is run on the file; for every directory it prints, exp2cxx is run there on the path named in SCHEMA_TARGETS(); one distinct directory per schema, directory name == PROJECT() == prefix of all file lists, every listed file exists, and the listed entity/type files equal the created ones (two-sided); everything else created is a listed fixed file or a unity header.",
+        note="Open finding F75: for multi-schema files whose schemas depend on each other exp2cxx writes numbered pass files (SdaiA_1.h ...) that the scanner does not list - excluded by construction, probed. A timeout is inconclusive, never a verdict; two declarations mapping to the same file name are counted, not failed (the statement says 'set')."),
+    "C18": dict(
+        level="exploration", ref="DESIGN.md section 4 C18",
+        technique="property-based testing (Hypothesis): generated single-schema files incl. identifiers that are Python keywords/builtins, multiple inheritance, redeclared/derived/inverse attributes; oracle = py_compile + import against the bundled runtime in a subprocess + introspection compared two-sided with the schema model (bases in declaration order, constructor parameters in Part 21 order, one definition per defined type)",
+        text="exp2python must exit 0 and write exactly one module that compiles and imports with PYTHONPATH=<repo>/src/exp2python/python; one class per entity with __bases__ == supertypes in declaration order and __init__ parameters == expmodel.p21_slots; every defined type with its kind, underlying type, enumeration items, select members, aggregate bounds; the module defines nothing else.",
+        note="Open findings F76 (Python keywords other than class/pass not mangled), F77 (diamond: inherited parameters repeated), F78 (supertypes re-sorted by chain length), F79 (redeclared attribute gets an extra parameter) are excluded by construction (keyword identifiers are renamed) with ~8% probes classified by signature. Bases are compared as a set when the declared order is not a valid Python base order."),
+    "C20": dict(
+        level="fault_enumeration", ref="DESIGN.md section 4 C20",
+        technique="property-based testing (Hypothesis-seeded generators) with one single-fault template per argument-carrying entry of LibErrors[] (parsed from the tree under test) and generator-chosen offending texts; oracle: arguments extracted with the table's own format string must equal the generator's texts and occur in the input; metamorphic oracle for -i/-w: stderr under a switch sequence == stderr of -w all filtered by the switch state, same exit status",
+        text="For every reachable argument-carrying diagnostic a mutant is generated in which the offending identifier/character/count is chosen by the generator; check-express must attribute every located diagnostic to the input's own (generator-chosen) file name, print the expected entry, and quote exactly the chosen text - never an empty or foreign string. For every warning class switched on and off (sequences of -i/-w) the printed lines must be the baseline filtered by class and the verdict unchanged; unknown class names give the usage error, never a signal.",
+        note="Line numbers are not asserted (not in the statement). 44 of 62 argument-carrying entries are triggered; the other 18 are listed in the evidence with the reason (dead code, no call site, environment-only). The default warning state is read off the run without switches, not asserted."),
     "C07": dict(
         level="exploration", ref="DESIGN.md section 4 C07",
         technique="property-based testing: grammar-directed EXPRESS generator (lib/explang.py, Hypothesis) x exppp option sets; oracle = independent tokenizer + declaration splitter + Pratt expression parser (lib/exptok.py, lib/expparse.py): output accepted by check-express, declaration maps equal in canonical fully parenthesised form (two-sided), reprint token-stable, token streams equal across line lengths",
@@ -64,7 +99,7 @@ CHECKS = {
         level="exploration", ref="DESIGN.md section 4 C16",
         technique="property-based testing (Hypothesis): generated schema x (partially filled) population x state assignment x save/load cycles; model comparison via independent parser of the working-session syntax, state comparison, byte comparison of successive saves",
         text="The real library reads a generated exchange file, assigns drawn states, writes a working-session file, reloads it in a fresh session and saves twice more; the saved text is parsed independently (state letters, values), the reloaded session must hold exactly the non-deleted instances with their saved states and model values, and later saves must be byte-identical (first save minus the deleted records).",
-        note="Only instances nobody references are marked deleted (a reference to a deleted instance is not a conforming reload); partially filled instances use required attributes of kinds without lenient filler and are forced to state I."),
+        note="Only instances nobody references are marked deleted (a reference to a deleted instance is not a conforming reload); partially filled instances use required attributes of kinds without lenient filler, may be saved in any state, and are reloaded in strict and in lenient mode."),
     "C19": dict(
         level="exploration", ref="DESIGN.md section 4 C19",
         technique="stateful property-based testing (Hypothesis RuleBasedStateMachine) + exhaustive enumeration of short operation sequences against a list/multiset/set model",
